@@ -79,7 +79,11 @@ def run_c09(pid, tier, seed, replay=None):
         _judge(ck, log, rows, "fit")
         fits = [r for r in rows if r["kind"] == "fit"]
         ck.cov["skipped_ill_posed"] = sum(1 for r in rows if r["kind"] == "skipped")
-        ck.cov["max_err_over_bound"] = max([r["err"] / r["bound"] for r in fits if r["completed"] and r["bound"] > 0] or [0])
+        def num(v):      # the driver prints non-finite doubles as the strings "inf" / "nan"
+            return v if isinstance(v, (int, float)) else float("inf")
+        ck.cov["max_err_over_bound"] = max([num(r["err"]) / num(r["bound"]) for r in fits if r["completed"] and num(r["bound"]) > 0] or [0])
+        if ck.cov["max_err_over_bound"] != ck.cov["max_err_over_bound"] or ck.cov["max_err_over_bound"] == float("inf"):
+            ck.cov["max_err_over_bound"] = "non-finite"
         ck.cov["traces_validated_against_impl"] = len(fits)
         ck.cov["evaluations"] = len(fits)
         ck.cov["distinct_nontrivial"] = n - ck.cov["skipped_ill_posed"]
